@@ -78,7 +78,8 @@ class Spec(dict):
 # ------------------------------------------------------------------ generation
 _DESC = st.sampled_from([None, None, None, None, "d", "A description.", "two\nlines", "with \"quotes\"", "  lead", "x\n  indented\nz",
                          "ends with a quote\"", "ends with a backslash\\", "has \"\"\" inside", "caf\u00e9 \U0001F600", "trailing space ",
-                         "First.\n  \nSecond.", "a\n\t\nb", "a\n      \n  b\n\nc", "p\n \nq"])   # interior lines of blanks only / empty
+                         "First.\n  \nSecond.", "a\n\t\nb", "a\n      \n  b\n\nc", "p\n \nq",   # interior lines of blanks only / empty
+                         " a\n b", "  every\n   line\n  indented", "\tt\n\tu"])   # every line indented (the first one too)
 DEPR_EMPTY = "<empty-reason>"   # `@deprecated(reason: "")`; the spec value "" stands for `@deprecated` without a reason
 _DEPR = st.sampled_from([None, None, None, None, None, "", "No longer supported", "use other", DEPR_EMPTY,
                          "caf\u00e9 \U0001F600 \U00020000", "say \"no\" \\ twice\nand a second line"])
@@ -121,7 +122,8 @@ def gen_input_value(draw, spec, t, depth=0, boundary=False, allow_null=True):
     if n == "Float":
         return draw(st.sampled_from([0.0, 1.5, -2.25, 1e-07, 3.0, 1e20]))
     if n in ("String", "ID"):
-        return draw(st.sampled_from(["", "a", "x y", "é", "q\"uote", "1.50", "line\nbreak", "back\\slash", "tab\tff\x0c", "sep\u2028\u0085x"]))
+        return draw(st.sampled_from(["", "a", "x y", "é", "q\"uote", "1.50", "line\nbreak", "back\\slash", "tab\tff\x0c", "sep\u2028\u0085x",
+                                     "12", "12\n", "007", "-3"]))   # digit strings: IDs are printed as integer literals when they look like one
     if n == "Boolean":
         return draw(st.booleans())
     k = spec.kind(n)
